@@ -284,6 +284,12 @@ func (state inSession) resendMessages(session *session, beginSeqNo, endSeqNo int
 		return err
 	}
 
+	// Numbers of the range above the last stored message have been used up (the sender counter is past
+	// them) but cannot be replayed: they are filled as well, so that the reply ends at endSeqNo+1.
+	if nextSeqNum <= endSeqNo {
+		nextSeqNum = endSeqNo + 1
+	}
+
 	if seqNum != nextSeqNum { // gapfill for catch-up
 		if err = state.generateSequenceReset(session, seqNum, nextSeqNum, inReplyTo); err != nil {
 			return err
